@@ -228,6 +228,20 @@ def pairAll : List (Nat × Nat) → List (Nat × Nat) → List (Nat × Nat) × L
     let r2 := pairAll r1.1 evs
     (r2.1, r1.2 ++ r2.2)
 
+/-- the closure events a reader meets in a token list: `(atom the digit is attached to, number)` -/
+def tokenEvents : Option Nat → List Nat → List WTok → List (Nat × Nat)
+  | _, _, [] => []
+  | _, stk, .atom n _ :: ts => tokenEvents (some n) stk ts
+  | prev, stk, .closure c :: ts =>
+    (match prev with | some p => [(p, c)] | none => []) ++ tokenEvents prev stk ts
+  | prev, stk, .lpar :: ts => tokenEvents prev (match prev with | some p => p :: stk | none => stk) ts
+  | prev, stk, .rpar :: ts =>
+    match stk with
+    | p :: tl => tokenEvents (some p) tl ts
+    | [] => tokenEvents prev [] ts
+  | prev, stk, .bond _ :: ts => tokenEvents prev stk ts
+  | prev, stk, .dot :: ts => tokenEvents prev stk ts
+
 /-- closure events of one round in written order, keyed by cycle identity: `(atom, cycle)` -/
 def cycleEvents (r : Round) : List (Nat × Nat) :=
   (closureAtoms r.smi r.tokens).flatMap fun n =>
